@@ -231,7 +231,7 @@ pub fn run(ctx: &Ctx) -> (Report, String) {
     if ctx.is_main() {
         let m = ctx.scale_pct;
         rep.require("headers_matched", if thorough { 40_000_000 } else { 3_000_000 } * m / 100);
-        for k in ["sweep:sor-custom8", "sweep:ptype-lowbits", "sweep:opptype-bits", "sweep:cpfmt", "sweep:par", "sweep:cpcfc-etr", "sweep:uui-sss", "sweep:layers", "sweep:rps", "sweep:pb", "inheritance_pairs", "marker_flips_rejected", "decoded_picture_header_checked"] {
+        for k in ["sweep:sor-custom8", "sweep:ptype-lowbits", "sweep:opptype-bits", "sweep:cpfmt", "sweep:par", "sweep:cpcfc-etr", "sweep:uui-sss", "sweep:layers", "sweep:rps", "sweep:pb", "inheritance_pairs", "marker_flips_rejected", "decoded_picture_header_checked", "decoded_picture_header_checked_in_history"] {
             rep.require(k, 40);
         }
     }
@@ -644,6 +644,58 @@ fn shard(ctx: &Ctx, s: usize, n_random: u64, thorough: bool, rep: &mut Report) {
             }
             if i == 0 {
                 rep.sample(8, || J::obj().set("kind", "decoded picture vs header").set("flavour", flavour.name()).set("w", w).set("h", h).set("tr", cfg.tr as u64).set("quant", cfg.quant as u64));
+            }
+            // ... and keeps doing so across a history on the same decoder: following pictures with
+            // repeated / increasing / random temporal references, new quantisers and (at I pictures) new sizes
+            let mut cfg = cfg.clone();
+            let (mut w, mut h) = (w, h);
+            for step in 0..1 + rng.below(4) {
+                cfg.tr = match rng.below(3) {
+                    0 => cfg.tr,
+                    1 => cfg.tr.wrapping_add(1),
+                    _ => rng.byte(),
+                };
+                cfg.quant = 1 + rng.below(31) as u8;
+                cfg.deblock_flag = rng.chance(1, 2);
+                let kind = rng.below(3);
+                let pic = if kind == 0 {
+                    if flavour != Flavour::StdFixed && rng.chance(1, 2) {
+                        let s2 = gen_size(&mut rng, 40);
+                        (w, h) = if flavour.sorenson() { s2 } else { (((s2.0 + 3) / 4 * 4).max(4), ((s2.1 + 3) / 4 * 4).max(4)) };
+                        cfg.w = w;
+                        cfg.h = h;
+                    }
+                    gen_intra(&mut rng, &cfg)
+                } else {
+                    let disp = flavour.sorenson() && kind == 2;
+                    super::c04::vector_field_picture(&mut rng, &cfg, disp)
+                };
+                let bytes = pic.encode();
+                rep.evaluations += 1;
+                match dec.decode(&bytes) {
+                    Outcome::Ok => {}
+                    o => {
+                        rep.count(&format!("skipped:decode:{}", o.short()));
+                        break;
+                    }
+                }
+                let exp = match &pic.hdr {
+                    Hdr::Sor(hh) => hh.view(),
+                    Hdr::Std(hh) => hh.view(false, &Inherited::default()),
+                };
+                let got = dec.header_view().unwrap();
+                let d = exp.diff(&got);
+                let dims = dec.planes().map(|p| (p.w, p.h));
+                if let Some(f) = d.first() {
+                    rep.violation(format!("decoded-header/history/{}/{}", flavour.name(), f.split(':').next().unwrap_or("?")), format!("picture {} of a history reports a different header than the one it was decoded from: {}", step + 1, f), coords());
+                    break;
+                } else if dims != Some((w, h)) {
+                    rep.violation(format!("decoded-size/history/{}", flavour.name()), format!("header says {}x{} picture is {:?}", w, h, dims), coords());
+                    break;
+                } else {
+                    rep.count("decoded_picture_header_checked_in_history");
+                    rep.distinct.insert(fnv64(&bytes));
+                }
             }
         }
     }
